@@ -238,7 +238,15 @@ class DemoStorage(ConflictResolvingStorage):
             if tid <= self._packed_to:
                 # ... or there were, and a pack of the changes has removed
                 # them: the base's revision would be the wrong answer.
-                return None
+                # (A pack removes nothing of an object whose oldest
+                # revision in the changes is later than the pack.)
+                first = maxtid
+                t = self.changes.loadBefore(oid, first)
+                while t:
+                    first = t[1]
+                    t = self.changes.loadBefore(oid, first)
+                if first <= self._packed_to:
+                    return None
             try:
                 result = self.base.loadBefore(oid, tid)
             except ZODB.POSException.POSKeyError:
